@@ -89,6 +89,20 @@ INFO = {
     "a thread adopting an up-to-date block of an exited thread while epoch % 3 != 0 retires a node at once: it is filed under epoch index 0 and reclaimed too early while another thread guards it"),
  "r4-c18-hp-dynamic-reinit-links": ("C18", "hazard_pointer dynamic strategy: initialize_next_block() of a grown block links to the older block without re-linking it",
     "a control block that grew at least twice is reused by a new thread which again needs the older blocks: stale free-list links hand out a slot that is in use"),
+ "r5-c02-lfrc-local-pop-store-refcount": ("C02", "lock_free_ref_count thread-local free list pop: ref_count().store(RefCountInc) instead of the fetch_add (same idea as c01-lfrc-local-freelist-store, written independently)",
+    "thread_local_free_list_size > 0; another thread still holds a transient reference on the node from an earlier look at the global free-list head"),
+ "r5-c05-scq-threshold-blind-store": ("C05", "nikolaev_scq::dequeue 'queue is empty' exit stores -1 into the threshold instead of decrementing it",
+    "a try_pop on an empty queue reaching its verdict while a complete try_push falls in between: the push's threshold reset is overwritten, later pops report EMPTY (mirror image: false FULL)"),
+ "r5-c07-kirsch-bounded-early-release": ("C07", "kirsch_bounded_kfifo_queue::try_push releases the unique_ptr right after the slot CAS instead of after committed()",
+    "unique_ptr elements; the slot CAS succeeds, committed() returns false (tail moved on), the retry finds the queue full: push rejected, object leaked"),
+ "r5-c09-set-iter-inc-single-attempt": ("C09", "harris_michael_list_based_set iterator++ makes one acquire_if_equal attempt and then falls back to find(cur->key) (re-introduces the repaired defect 8478286)",
+    "the successor of the current element changes between the load of cur->next and the re-validation: the same element is yielded twice"),
+ "r5-c12-grow-clears-old-slot": ("C12", "growing_circular_array::grow resets the old slot to nullptr after copying an entry to its new position",
+    "a thief that located index top with the old capacity during grow() reads nullptr, the capacity re-check still passes: try_steal returns null, the item is lost"),
+ "r5-c14-seqlock-update-not-atomic": ("C14", "seqlock::update became load(); func(); store(): the read-modify-write is no longer done under the writer lock",
+    "two concurrent writers, one of them in update() between its load and its store while the other completes a write: lost update"),
+ "r5-c17-hp-abandon-active-count": ("C17", "hazard_pointer control block abandon() subtracts K instead of the block's number of hazard pointers from number_of_active_hps",
+    "dynamic strategy, a thread whose block grew exits: total - K phantom active hazard pointers per generation; threshold and scan size grow with the number of threads ever created"),
 }
 rows = []
 for sid in sorted(INFO):
